@@ -184,9 +184,9 @@ def run_case(case) -> list[Failure]:
                         owning_closes += 1
                     r.close()
                 elif d == "stream":
+                    # (read to the end through stream(): like read(), that alone has to give the connection back)
                     for _ in r.stream(16):
                         pass
-                    r.release_conn()
             except BaseException as e:  # noqa: BLE001
                 if type(e).__name__ == "CaseTimeout":
                     raise
@@ -340,6 +340,19 @@ def enum_cases(tier):
                                    "addrs": (1, 1, 2, 3)[(k // 4) % 4]}
 
 
+def head_cases(tier):
+    """HEAD requests against every response kind (incl. chunked / close-delimited framing announced for a body that never
+    comes) x every disposal x release mode, on a direct and a tunnelled pool."""
+    k = 0
+    for o in RESPS:
+        for preload, release in ((True, None), (True, False), (False, None), (False, False)):
+            for d in disposals_for(preload, release):
+                for kind in ("http", "tunnel") if tier == "quick" else KINDS:
+                    k += 1
+                    yield {"kind": "hist", "pool": kind, "maxsize": (1, 2)[k % 2], "block": bool(k % 3), "retries": RETRIES[k % len(RETRIES)], "preload": preload, "release": release,
+                           "script": [o], "requests": [{"m": "HEAD", "d": d}, {"m": "GET", "d": "read"}], "addrs": 1}
+
+
 def _hyp():
     from hypothesis import strategies as st
 
@@ -361,6 +374,7 @@ def _hyp():
 def shards(tier, seed):
     total = sum(1 for _ in enum_cases(tier))
     out = [{"part": "matrix", "tier": tier, "lo": a, "hi": b} for a, b in core.split_range(total, 32 if tier == "quick" else 96)]
+    out.append({"part": "head", "tier": tier})
     n = _scale(12000 if tier == "quick" else 200000)
     nsh = 16 if tier == "quick" else 64
     for i in range(nsh):
@@ -370,7 +384,10 @@ def shards(tier, seed):
 
 def run_shard(spec):
     col = core.Collector()
-    if spec["part"] == "matrix":
+    if spec["part"] == "head":
+        for case in head_cases(spec["tier"]):
+            col.case(case, True, classes(case) + ["head-matrix"], check_case(case), distinct_by_construction=True)
+    elif spec["part"] == "matrix":
         for i, case in enumerate(enum_cases(spec["tier"])):
             if spec["lo"] <= i < spec["hi"]:
                 col.case(case, nontrivial(case), classes(case), check_case(case), distinct_by_construction=True)
